@@ -293,15 +293,25 @@ def sample_lines(path, k, seed):
     return [json.loads(lines[i]) for i in idx]
 
 
+KIND_RE = re.compile(r'"k":"([a-z0-9]+)"(?:.*?"(?:op|fn|kind)":"([A-Za-z0-9_]+)")?')
+BY_KIND = {}
+
+
 def count_distinct(paths, keyf=None):
-    """distinct events (by content hash) and distinct non-trivial ones according to keyf"""
+    """distinct events (by content hash) and distinct non-trivial ones according to keyf; also fills BY_KIND with
+    the number of events per (event kind, operation) -- the vacuity check: every operation of the plan must occur"""
     seen = set()
     nontriv = 0
     total = 0
+    BY_KIND.clear()
     for p in paths:
         with open(p) as f:
             for line in f:
                 total += 1
+                m = KIND_RE.search(line[:400] if not line.startswith('{"k":"pair"') else line[16:416])
+                if m:
+                    k = m.group(1) + ("/" + m.group(2) if m.group(2) else "")
+                    BY_KIND[k] = BY_KIND.get(k, 0) + 1
                 h = hash(line)
                 if h in seen:
                     continue
